@@ -3,23 +3,26 @@ import re
 from checks import valcomp
 from vlib.proto import unhex
 
-LEAN_TARGETS = ["LyModel.Props.C03", "LyModel.Props.C03Base", "LyModel.Props.C03Union", "LyModel.Props.C03Ident", "LyModel.Props.C03Pattern", "LyModel.Props.C03Dt"]
+LEAN_TARGETS = ["LyModel.Props.C03", "LyModel.Props.C03Base", "LyModel.Props.C03Union", "LyModel.Props.C03Ident", "LyModel.Props.C03Pattern", "LyModel.Props.C03Dt", "LyModel.Props.C03Hex"]
 AUDIT = "Audit/C03.lean"
-GENERATED = ["ValBounds", "Consts", "ValExt"]
+GENERATED = ["ValBounds", "Consts", "ValExt", "ValHex"]
 ASSUMPTIONS = [
     "libc is modelled, not verified: strtoll/strtoull of glibc 2.36 in the C locale (leading isspace, one optional sign, 0x/0 prefixes for base 0/16, "
     "ERANGE above 2^63-1 / 2^63 / 2^64-1; no C23 0b prefix), isspace/isdigit of the C locale, printf %d / %0*d",
     "little-endian host (htole64 = id), 64-bit size_t",
     "value strings contain no NUL byte (they are C strings on every text route); whitespace around numbers is accepted as libyang documents",
     "the theorems are about the executable model lean/LyModel/Val/Model.lean; model = code is checked by correspondence on every run",
-    "derived-type plug-ins of ietf-inet-types and of ietf-yang-types other than date-and-time, binary, instance-identifier, leafref: laws on the implementation only",
+    "derived-type plug-ins of ietf-inet-types and of ietf-yang-types other than date-and-time and the hex-string family (hex-string, mac-address, phys-address, uuid), "
+    "binary, instance-identifier, leafref: laws on the implementation only",
+    "date-and-time: TZ=UTC (the harness sets it); the typedef pattern and the Unicode 14 Nd table are constants of the model",
     "union members are the modelled types (integers, decimal64, boolean, enumeration, bits, string with length and patterns); identityref over generated module "
     "sets whose module names are distinct from every other module of the context; all identities enabled (no if-feature), all modules implemented",
     "string patterns: the matcher of the model is the XSD matcher of C18 (XsdRe); the generated patterns stay inside the sub-grammar on which libyang's PCRE2 "
     "translation is correct (the deviations are findings of C18)",
 ]
 TRUSTED = ["tools/extractors/val.py (bounds, LYB sizes, executed lyplg_type_check_hints table)",
-           "tools/extractors/valx.py (shape of the union / identityref / string-pattern functions, repair switches)", "harness/api_types.c"]
+           "tools/extractors/valx.py (shape of the union / identityref / string-pattern / date-and-time functions, repair switches)",
+           "tools/extractors/valhex.py (typedef patterns of the hex-string family, shape of the plug-in)", "harness/api_types.c"]
 
 
 def classify(component, what, case):
@@ -66,10 +69,13 @@ def classify(component, what, case):
         if a.split(b":")[-1] == b.split(b":")[-1] and a != b:
             return "F411"
     # F412: union values of different member types with the same canonical string (sort != 0: different members)
-    if ty.startswith("U(") and law == "eq_iff_canon_eq" and case.get("reply", [None] * 4)[1] == "0" and case["reply"][2] != "0" and case["reply"][3] == "1":
-        return "F412"
-    if ty.startswith("U(") and law == "canon_idempotent" and case.get("cmp") and case["cmp"][1] == "0" and case["cmp"][2] != "0" and case["cmp"][3] == "1":
-        return "F412"
+    if ty.startswith("U(") and law in ("eq_iff_canon_eq", "canon_idempotent"):
+        from checks import valunion
+        a, b = (case.get("a_hex"), case.get("b_hex")) if law == "eq_iff_canon_eq" else (case.get("value_hex"), case.get("canonical_hex"))
+        ma, mb = valunion.MEMBER_OF.get((ty, a)), valunion.MEMBER_OF.get((ty, b))
+        r = case.get("reply") if law == "eq_iff_canon_eq" else case.get("cmp")
+        if ma is not None and mb is not None and ma != mb and r and r[0] == "ok" and r[1] == "0" and r[2] != "0" and r[3] == "1":
+            return "F412"
     # F63: a JSON string carrying a 64-bit integer is parsed in base 0 (0x.., leading 0 = octal), the other sources in base 10
     if law in ("same_verdict_all_sources", "hints_base") and head in ("i64", "u64") and case.get("route") == "json-string" \
             and re.match(rb"^[ \t\n\r\x0b\x0c]*[-+]?0[0-9xX]", val):
